@@ -1,6 +1,7 @@
 package c05b
 
 import (
+	"encoding/json"
 	"flag"
 	"fmt"
 	"os"
@@ -43,10 +44,21 @@ func Main(args []string) {
 	fs := flag.NewFlagSet("C05", flag.ExitOnError)
 	replay := fs.String("replay", "", "replay file")
 	depthOverride := fs.Int("depth", 0, "override depth of every run")
-	only := fs.String("only", "", "run only 'monitor' or 'machine'")
+	only := fs.String("only", "", "run only 'monitor', 'machine' or 'retry'")
 	budgetX := fs.Int("budgetx", 1, "multiply the time budgets of the machine (experiments)")
 	fs.Parse(args)
 	if *replay != "" {
+		var f struct {
+			Oracle string `json:"oracle"`
+			Sig    string `json:"sig"`
+			Replay struct {
+				Model string    `json:"model"`
+				Case  RetryCase `json:"case"`
+			} `json:"replay"`
+		}
+		if b, err := os.ReadFile(*replay); err == nil && json.Unmarshal(b, &f) == nil && f.Replay.Model == "c05retry" {
+			os.Exit(ReplayRetry(f.Oracle, f.Sig, f.Replay.Case))
+		}
 		os.Exit(syncrun.Replay(*replay))
 	}
 	tier := evidence.Tier()
@@ -119,6 +131,28 @@ func Main(args []string) {
 					Replay: map[string]any{"model": "c05b", "params": r.params, "path": fd.Path, "reproduced_of_5": n},
 					Count:  res.SigCount[fd.Oracle+"|"+fd.Sig]})
 			}
+		}
+	}
+	if *only == "" || *only == "retry" {
+		fmt.Fprintln(os.Stderr, "== C05 fault + retry enumeration (error at a clock-file operation, retry on the same handle, restart)")
+		t0 := time.Now()
+		rc, herr := exploreRetries(tier, seed, func(v xstate.Violation, c RetryCase, count, repro int) {
+			rep.Report(evidence.Report{Oracle: v.Oracle, Sig: v.Sig,
+				Detail: fmt.Sprintf("[fault + retry] history %v, step %s, %s fault number %d, %s, then retried on the same handle and restarted: %s (reproduced %d/5)", c.History, c.Step, c.Family, c.P, attemptsName(c.Attempts), v.Detail, repro),
+				Replay: map[string]any{"model": "c05retry", "case": c, "reproduced_of_5": repro}, Count: count})
+		})
+		harnessErr = harnessErr || herr
+		if rc != nil {
+			if ss, ok := rc["samples"].([]any); ok {
+				samples = append(samples, ss...)
+				delete(rc, "samples")
+			}
+			rc["wall_s"] = time.Since(t0).Seconds()
+			cov["fault_retry_enumeration"] = rc
+			fmt.Fprintf(os.Stderr, "fault + retry: %v histories, %v fault points, %v cases in %.1fs\n", rc["histories"], rc["fault_points"], rc["cases"], time.Since(t0).Seconds())
+		}
+		if herr {
+			exhaustive = false
 		}
 	}
 	cov["traces_validated_against_impl"] = cov["transitions"]
